@@ -12,26 +12,26 @@ import (
 func init() {
 	Register(&PropDef{
 		ID: "C08", QuickRuns: 4800, Level: "exploration",
-		Rule: "one run = one association on the BESS datapath with (stateful part, decided by simulation) 1-5 PFD Management Requests - accepted ones replacing the application table, and ones rejected half-way (an application without flow description after valid ones) - interleaved with establishments whose PDRs name application ids; the filter at the datapath must be the flow description currently provisioned for that application and direction, verbatim, replaced wholesale by an accepted request and untouched by a rejected one; and (grammar part, input sampling carried by the workload, stated as such) inline SDF filters drawn from the IPFilterRule grammar of the property (permit|deny, in|out, ip|tcp|udp|number, both endpoint orders, any|assigned|IPv4[/0..32], one port or port range on either side) and the corruption classes the property names (unknown action / direction, missing or unparsable address or port token, inverted port range): the PDR entry's match fields must equal the independent reference reading, or the rule must be refused, or the filter ignored (UE address only). Non-trivial = at least one accepted session with a filter; distinct = different sequence of (PFD outcome, filter class, outcome). Also: two associations with a PFD table each (one run in three); a long history of one flow description over 67-106 UEs, then the first UE again (one run in 40).",
+		Rule:   "one run = one association on the BESS datapath with (stateful part, decided by simulation) 1-5 PFD Management Requests - accepted ones replacing the application table, and ones rejected half-way (an application without flow description after valid ones) - interleaved with establishments whose PDRs name application ids; the filter at the datapath must be the flow description currently provisioned for that application and direction, verbatim, replaced wholesale by an accepted request and untouched by a rejected one; and (grammar part, input sampling carried by the workload, stated as such) inline SDF filters drawn from the IPFilterRule grammar of the property (permit|deny, in|out, ip|tcp|udp|number, both endpoint orders, any|assigned|IPv4[/0..32], one port or port range on either side) and the corruption classes the property names (unknown action / direction, missing or unparsable address or port token, inverted port range): the PDR entry's match fields must equal the independent reference reading, or the rule must be refused, or the filter ignored (UE address only). Non-trivial = at least one accepted session with a filter; distinct = different sequence of (PFD outcome, filter class, outcome). Also: two associations with a PFD table each (one run in three); a long history of one flow description over 67-106 UEs, then the first UE again (one run in 40).",
 		Assume: []string{"a single port specification denotes the remote (application) port, on whichever side it is written", "the grammar part is sampling of inputs, not a decision over all strings"},
-		Real: CommonReal, Simulated: CommonSim,
+		Real:   CommonReal, Simulated: CommonSim,
 		Scenario: scenarioC08,
 	})
 }
 
 // refFlow is the independent reference reading of a generated flow description.
 type refFlow struct {
-	text   string
-	valid  bool
-	class  string
-	dir    string
-	proto  int // -1 any
-	srcIP  uint32
-	srcLen int
-	srcAssigned bool
-	dstIP  uint32
-	dstLen int
-	dstAssigned bool
+	text               string
+	valid              bool
+	class              string
+	dir                string
+	proto              int // -1 any
+	srcIP              uint32
+	srcLen             int
+	srcAssigned        bool
+	dstIP              uint32
+	dstLen             int
+	dstAssigned        bool
 	srcPorts, dstPorts [2]int // -1,-1 = none
 }
 
